@@ -79,6 +79,18 @@ def shard(binpath, seed, sh, n):
             g.append(len(cases))
             cases.append({"op": "serde", "type": t, "text": tx, "meta": {"spelling": sp, "valid": bool(i % 4)}})
         groups.append(g)
+        if i % 3 == 0:
+            # text-level variants around the document: each is judged on its own (one outcome over all channels)
+            base = texts["plain"]
+            k = rng.randrange(12)
+            tx, how = {
+                0: (base + "]", "trailing_bracket"), 1: (base + " x", "trailing_garbage"), 2: (base + base, "two_documents"),
+                3: (base + " \n\t\r\n", "trailing_whitespace"), 4: (base + ",", "trailing_comma"), 5: (base + "\x00", "trailing_nul"),
+                6: (" \n" + base, "leading_whitespace"), 7: ("\ufeff" + base, "leading_bom"), 8: (base[:max(1, len(base) - rng.randrange(1, 4))], "truncated"),
+                9: (base + "}", "trailing_brace"), 10: (base + " null", "trailing_value"), 11: (base + "//c", "trailing_comment"),
+            }[k]
+            groups.append([len(cases)])
+            cases.append({"op": "serde", "type": t, "text": tx, "meta": {"spelling": "text:" + how, "valid": False, "textmut": how}})
     obs = common.run_batch(binpath, cases, keys=False)
     for g in groups:
         rs = []
@@ -96,6 +108,8 @@ def shard(binpath, seed, sh, n):
         if len(vals) > 1:
             res.violate(f"spelling-dependent-value:{c0['type']}", f"spellings of the same {c0['type']} decode to different values", c0, None, "one value")
         cls = [f"type:{c0['type']}", ("valid:" if c0["meta"]["valid"] else "mutated:") + "+".join(sorted(classes))]
+        if c0["meta"].get("textmut"):
+            cls.append(f"text:{c0['meta']['textmut']}:" + "+".join(sorted(classes)))
         if "ok" in classes and len(classes) == 1:
             cls.append(f"all_channels_agree_ok:{c0['type']}")
             if '"MATCH"' in c0["text"] or '"CREATE"' in c0["text"] or '"ALLOW"' in c0["text"]:
@@ -133,5 +147,6 @@ def main(ctx):
              "every document non-trivial; distinct by (type, text); evaluations = channel decodings",
         assumptions=["serde_json::Value parsing defines 'the same content' for a spelling"],
         required=[f"all_channels_agree_ok:{t}" for t in ("metablock", "layout", "link", "pubkey", "rule", "step", "inspection", "statement", "predicate")] +
-                 ["contains_rules:ok", "contains_timestamp:ok", "mutated:err"],
+                 ["contains_rules:ok", "contains_timestamp:ok", "mutated:err", "text:trailing_bracket:err", "text:two_documents:err",
+                  "text:trailing_whitespace:ok", "text:leading_whitespace:ok", "text:truncated:err"],
         min_evals=10000)
